@@ -3,7 +3,7 @@
 (* (C05), string readers and UnescapeStringContent (C06), Decode functions    *)
 (* (C12), token classification and literal readers (C13), destination and     *)
 (* scratch semantics (C16), StdLibCompatible string helpers (C17).            *)
-EXTENDS Api, Ints, TraceCore
+EXTENDS Api, IntsImpl, TraceCore
 VARIABLE l
 
 IntType(k) == CASE k \in {1, 5, 7, 11} -> "i64"     \* ReadInt64, ReadInt, DecodeInt64, DecodeInt (64-bit platform)
@@ -20,8 +20,14 @@ IntClauses(e) ==
            r == IntRead(d, IntType(row[1]))
            good == /\ row[2] = (IF r.ok THEN 1 ELSE 0)
                    /\ r.ok => (row[3] = r.end /\ row[4] = (IF r.neg THEN 1 ELSE 0) /\ SubSeq(row, 5, Len(row)) = r.digits)
+           \* the implementation-shaped model (IntsImpl): same verdict and - also together with an error, which C05
+           \* leaves open - the offset at which the two loops of the real reader stop
+           m == ImplOff(d, IntType(row[1]))
+           \* the Decode forms go through nullOrBust on an error, which returns offset 0 with the reader's error
+           conf == row[2] = (IF m.ok THEN 1 ELSE 0) /\ row[3] = (IF row[1] >= 7 /\ ~m.ok THEN 0 ELSE m.p)
        IN IF row[1] >= 7 /\ isNull THEN {}           \* Decode forms on null: C12
           ELSE F(good, "C05", "int_reader_" \o ToString(row[1]))
+               \cup F(conf, "NOTE", "integer_reader_differs_from_IntsImpl_model")
        : i \in 1..Len(e.rows)}
      \cup F(e.unch = 1, "C16", "input_modified")
      \cup F(e.intsize = 64, "INFRA", "platform_int_size_is_not_64")
